@@ -771,6 +771,18 @@ impl TypeLayout {
         matches!(me, TypeLayout::Map(..))
     }
 
+    /// Whether every value of this type can be hashed, which is what being the key of a map takes:
+    /// a map cannot, and neither can a list or optional that holds one.
+    pub fn can_be_hashed(&self) -> bool {
+        match self.disregard_distractors(false) {
+            Self::Map(..) => false,
+            Self::Optional(Some(ty)) => ty.can_be_hashed(),
+            Self::List(ListType::Open(ty)) => ty.can_be_hashed(),
+            Self::List(ListType::Mixed(types)) => types.iter().all(|ty| ty.can_be_hashed()),
+            _ => true,
+        }
+    }
+
     pub fn is_float(&self) -> bool {
         let me = self.get_type_recursively();
 
